@@ -1009,6 +1009,9 @@ impl C03 {
         // classes about the history as a whole
         if let Some(g) = gen.as_ref() {
             self.gen_history_classes(cx, g, &history, &gen_raw_tuples);
+            if g.far_applied {
+                cx.class("gen:coverage-tables-65536-bytes-apart");
+            }
         }
         let _ = violated;
         cx.class(&format!("history:{:?}", class));
@@ -1192,7 +1195,7 @@ impl C03 {
         d.push(("font_class", J::s(format!("{:?}", class))));
         d.push(("tuples", J::s(format!("{:?}", env.tuples))));
         d.push(("step", J::U(step as u64)));
-        if class == FontClass::Generated {
+        if class == FontClass::Generated && bytes.len() <= 8000 {
             d.push(("font_bytes", J::hex(bytes)));
         }
         cx.violation("history-differs", &sig, J::obj(d));
